@@ -1,2 +1,2 @@
-import NipyVerif.Model.C04
-def main : IO Unit := NipyVerif.driverLoop NipyVerif.C04.run
+import NipyVerif.Model.C04C
+def main : IO Unit := NipyVerif.driverLoop NipyVerif.C04.runC
